@@ -113,6 +113,33 @@ class _Eval:
                     for p_, a_ in zip(ps, e.args):
                         env2[p_] = self.ev(a_, env, cenv)
                     return self.ev(body[0].value, env2, cenv)
+                # ... or a few plain assignments (say the unpacking of the pair) in front of the one return
+                if body and isinstance(body[-1], ast.Return) and body[-1].value is not None and len(ps) == len(e.args) \
+                        and not h.args.vararg and not h.args.kwarg and len(body) <= 6 \
+                        and all(isinstance(s_, ast.Assign) and len(s_.targets) == 1 and (
+                            isinstance(s_.targets[0], ast.Name) or (isinstance(s_.targets[0], ast.Tuple)
+                                                                    and all(isinstance(x_, ast.Name) for x_ in s_.targets[0].elts)))
+                                for s_ in body[:-1]):
+                    env2 = dict(env)
+                    for p_, a_ in zip(ps, e.args):
+                        env2[p_] = self.ev(a_, env, cenv)
+                    for s_ in body[:-1]:
+                        val = self.ev(s_.value, env2, cenv)
+                        tg = s_.targets[0]
+                        if isinstance(tg, ast.Name):
+                            if val[0] == 'opaque':
+                                env2.pop(tg.id, None)
+                            else:
+                                env2[tg.id] = val
+                        else:
+                            for k_, x_ in enumerate(tg.elts):
+                                if val[0] == 'elem':
+                                    env2[x_.id] = ('comp', val[1], val[2], k_)
+                                elif val[0] == 'tuple' and len(val[1]) == len(tg.elts):
+                                    env2[x_.id] = val[1][k_]
+                                else:
+                                    env2.pop(x_.id, None)
+                    return self.ev(body[-1].value, env2, cenv)
                 raise _Undecided(f"nested helper `{e.func.id}` is more than one expression")
             return ('opaque', ast.unparse(e))
         return ('opaque', ast.unparse(e))
